@@ -69,6 +69,19 @@ pub fn build_state(mode: &str, ops: &str) -> Result<St, String> {
                     St::A(p) => set!(p),
                 }
             }
+            ["s", _w, r] => {
+                // save and reopen: the tiles become reader-backed
+                let old = std::mem::replace(&mut st, fresh(*r == "a"));
+                let (res_w, core) = write_to(old, Core::new(Vec::new(), 0));
+                res(res_w, "to_writer (intermediate save)")?;
+                let b = core.data;
+                let asy = *r == "a";
+                st = match catch_unwind(AssertUnwindSafe(|| open(asy, b, FULL))) {
+                    Err(_) => return Err("reopening panicked".into()),
+                    Ok(Err(e)) => return Err(format!("reopening failed: {e}")),
+                    Ok(Ok(s)) => s,
+                };
+            }
             _ => return Err(format!("unsupported op {o}")),
         }
     }
@@ -187,6 +200,83 @@ fn chk_torn(mode: &str, ops: &str) -> Result<(), String> {
     }
     if img != full {
         return Err("harness: replay of the log does not reproduce the stream".into());
+    }
+    Ok(())
+}
+
+/// More than 4 GiB of tile data: the stream keeps the bytes of small writes only and the extents of
+/// large ones. The image torn after k operations is judged by its dense part (header, directories,
+/// metadata: all the reader touches when opening) and the set of large extents written so far.
+fn chk_torn_giant(mode: &str) -> Result<(), String> {
+    const TILE: usize = 512 << 20;
+    const N: usize = 9; // 4.5 GiB > u32::MAX bytes
+    let mut st = fresh(mode == "async");
+    for i in 0..N {
+        let mut t = vec![(i as u8).wrapping_mul(37).wrapping_add(1); TILE];
+        t[..8].copy_from_slice(&(i as u64).to_le_bytes());
+        let r = match &mut st {
+            St::S(p) => p.add_tile(5 + 2 * i as u64, t),
+            St::A(p) => p.add_tile(5 + 2 * i as u64, t),
+        };
+        r.map_err(|e| format!("add_tile: {e}"))?;
+    }
+    let mut core = Core::new(Vec::new(), 0);
+    core.keep_data = true;
+    core.sparse_over = 1 << 20;
+    let (r, core) = write_to(st, core);
+    res(r, "to_writer of more than 4 GiB of tile data")?;
+    let events: Vec<&Ev> = core.log.iter().filter(|e| matches!(e, Ev::Write { .. } | Ev::Seek { .. })).collect();
+    let n = events.len();
+    type Image = (Vec<u8>, Vec<(u64, usize)>);
+    let replay = |upto: usize| -> Image {
+        let mut img: Vec<u8> = Vec::new();
+        let mut ext: Vec<(u64, usize)> = Vec::new();
+        let mut wi = 0usize;
+        for e in events.iter().take(upto) {
+            if let Ev::Write { pos, len } = e {
+                let d = &core.wdata[wi];
+                wi += 1;
+                if *len == 0 {
+                    continue;
+                }
+                if d.is_empty() {
+                    ext.push((*pos, *len));
+                } else {
+                    let p = *pos as usize;
+                    if img.len() < p + len {
+                        img.resize(p + len, 0);
+                    }
+                    img[p..p + len].copy_from_slice(d);
+                }
+            }
+        }
+        ext.sort_unstable();
+        (img, ext)
+    };
+    let full = replay(n);
+    let total: u64 = full.1.iter().map(|e| e.1 as u64).sum();
+    if total <= u32::MAX as u64 {
+        return Err(format!("harness: only {total} bytes of tile data were written in large writes"));
+    }
+    let opens = |img: &Vec<u8>| -> Result<bool, String> {
+        match catch_unwind(AssertUnwindSafe(|| open(mode == "async", img.clone(), FULL).map(|_| ()))) {
+            Err(_) => Err("opening a torn output panicked".into()),
+            Ok(r) => Ok(r.is_ok()),
+        }
+    };
+    if !opens(&full.0)? {
+        // the reader wants more than header, directories and metadata: this sparse check cannot judge
+        eprintln!("chk_torn_giant: the dense part of the complete output does not open; skipped");
+        return Ok(());
+    }
+    for k in 0..n {
+        let cur = replay(k);
+        if cur != full && opens(&cur.0)? {
+            let have: u64 = cur.1.iter().map(|e| e.1 as u64).sum();
+            return Err(format!(
+                "the output torn after {k} of {n} operations ({have} of {total} bytes of tile data present) opens successfully"
+            ));
+        }
     }
     Ok(())
 }
